@@ -10,7 +10,7 @@ impl MetadataWrapper {
 pub open spec fn signed_msg(m: MetadataWrapper) -> Option<Seq<u8>> {
     match canon_bytes(m) {
         Some(b) => if vstd::utf8::valid_utf8(b) {
-            Some(vstd::utf8::encode_utf8(str_replace(vstd::utf8::decode_utf8(b), "\\n"@, "\n"@)))
+            Some(signed_text(b))
         } else { None },
         None => None,
     }
